@@ -197,7 +197,8 @@ class CompressConfig:
         assert 0 < self.threshold < 1
         # count how many sing vals < trunc
         normed_sigma = sigma / scipy.linalg.norm(sigma)
-        return int(np.sum(normed_sigma > self.threshold))
+        # keep at least the largest one: a flat spectrum (all normalised values below the threshold) must not empty the bond
+        return max(int(np.sum(normed_sigma > self.threshold)), 1)
 
     def _fixed_m_trunc(self, sigma: np.ndarray, idx: int, left: bool) -> int:
         assert self.max_dims is not None
